@@ -5,6 +5,7 @@ import os
 from vlib import confirm_by_replay, finish, selftest_corrupt
 
 ASSUME = [
+    "model -> code conformance: the 7308 pattern lists of spec/FilterWalkMC.tla (single patterns <= 3 segments, lists of <= 2 patterns of <= 2 segments, as include and as exclude list, on the full depth-3 tree over a, ab) are written by TLC with the ALGORITHM model's output; the real walk must report exactly that",
     "single-pattern glob semantics are taken from moby/patternmatcher (outside the system under test) as a hit matrix 'pattern k alone, de-negated, matches entry i or an ancestor'; everything fsutil adds is specified in spec/FilterRef.tla",
     "map functions are pure functions of the path; decisions on directories are only generated without patterns (no lazily emitted ancestors), decisions on files and stat rewriting with any patterns",
     "explanation test for the known finding: a walk that differs from the naive reference but equals the reference built from the library's own incremental matcher (MatchesUsingParentResults chained over the FULL tree, no pruning) is classified 'explainedByIncrementalMatcher'; any other difference is a plain violation",
